@@ -153,6 +153,71 @@ def empty_collection_in(call):
     return any(walk_s(sp, s) for sp, s, org in call.stmts)
 
 
+def aggregate_of_empty_list(call):
+    """F25 input predicate: a statement of the call contains sum/product of a list that has no element at
+    the time of the call (for a random-size list: whose size is fixed to 0 by nothing - not covered)"""
+    def has(e):
+        if not isinstance(e, list) or not e:
+            return False
+        if e[0] in ("sum", "prod"):
+            try:
+                cur = R.get_at(call.root, tuple(e[1]))
+                return len(cur) == 0
+            except Exception:
+                return False
+        return any(has(x) for x in e[1:] if isinstance(x, list))
+    for sp, s, org in call.stmts:
+        if sp == () and has(s):
+            return True
+    return False
+
+
+def _rsz_lists(call):
+    """absolute paths of the random-size lists that are random in this call"""
+    return set(p[:-1] for p, t in call.rand_leaves if t[0] == "size")
+
+
+def _walk_exprs(x, fn):
+    if isinstance(x, list) and x:
+        if isinstance(x[0], str):
+            fn(x)
+        for y in x[1:] if isinstance(x[0], str) else x:
+            if isinstance(y, list):
+                _walk_exprs(y, fn)
+
+
+def uses_on_random_size_list(call, what):
+    """what: 'foreach' | 'member' | 'aggregate' - does an active statement apply it to a random-size list?"""
+    rsz = _rsz_lists(call)
+    if not rsz:
+        return False
+    hit = [False]
+    for sp, s, org in call.stmts:
+        def fn(e, sp=sp):
+            if what == "foreach" and e[0] == "fe" and tuple(sp) + tuple(e[1]) in rsz:
+                hit[0] = True
+            if what == "member" and e[0] in ("in", "nin"):
+                for it in e[2]:
+                    if it[0] == "lst" and tuple(sp) + tuple(it[1]) in rsz:
+                        hit[0] = True
+            if what == "member" and e[0] == "uniq":
+                for it in e[1]:
+                    if it[0] == "lst" and tuple(sp) + tuple(it[1]) in rsz:
+                        hit[0] = True
+            if what == "aggregate" and e[0] in ("sum", "prod") and tuple(sp) + tuple(e[1]) in rsz:
+                hit[0] = True
+        _walk_exprs(s, fn)
+    return hit[0]
+
+
+def failed_call_before_on_random_size_list(spec, ev):
+    """F28 input predicate: the object has a random-size list and an earlier call on it ended in an exception"""
+    hist = spec.get("hist", [])
+    prog = spec["prog"]
+    has = any(fd["k"] == "list" and fd.get("rsz") for c in prog["classes"].values() for fd in c["fields"])
+    return has and ev is not None and bool(ev.get("_failed_before") or ev["op"].get("_failed_before"))
+
+
 def _class_contains(prog, holder, target):
     if holder == target:
         return True
@@ -248,8 +313,13 @@ def classify(prop, spec, viol, evs=None):
 
     def f20(k, m, ev):
         c = _call(ev)
-        return (k in ("unsat-returned-normally", "formula-mismatch", "value-violates-constraint")
+        return (k in ("unsat-returned-normally", "formula-mismatch", "value-violates-constraint", "spurious-solve-failure")
                 and c is not None and empty_collection_in(c))
+
+    def f25(k, m, ev):
+        c = _call(ev)
+        return (k in ("unsat-returned-normally", "formula-mismatch", "value-violates-constraint")
+                and c is not None and aggregate_of_empty_list(c))
 
     def f10(k, m, ev):
         return ev is not None and dynref_with_later_instance(spec, ev)
@@ -260,6 +330,36 @@ def classify(prop, spec, viol, evs=None):
         return "bounds-unbounded-int-slice-exception"
     if prop == "C06" and _all(viol, f10):
         return "dynamic-ref-binds-last-constructed-instance"
+    def f27(k, m, ev):
+        c = _call(ev)
+        return k in ("spurious-solve-failure", "formula-unsat-but-ref-sat") and c is not None and uses_on_random_size_list(c, "foreach")
+
+    def f26(k, m, ev):
+        c = _call(ev)
+        return (k in ("value-violates-constraint", "unsat-returned-normally", "spurious-solve-failure")
+                and c is not None and uses_on_random_size_list(c, "member"))
+
+    def f9(k, m, ev):
+        c = _call(ev)
+        return (k in ("value-violates-constraint", "unsat-returned-normally", "spurious-solve-failure", "other-exception")
+                and c is not None and uses_on_random_size_list(c, "aggregate"))
+
+    def f28(k, m, ev):
+        return k in ("list-edit-mismatch", "list-views-disagree") and failed_call_before_on_random_size_list(spec, ev)
+
+    if prop in ("C04", "C02"):
+        if _all(viol, f27):
+            return "foreach-over-random-size-list-unguarded"
+        if _all(viol, f26):
+            return "membership-in-random-size-list-not-enforced"
+        if _all(viol, f9):
+            return "aggregate-of-random-size-list-stale-size"
+        if _all(viol, f28):
+            return "failed-call-leaves-random-size-list-extended"
+        if _all(viol, lambda k, m, ev: f27(k, m, ev) or f26(k, m, ev) or f9(k, m, ev) or f28(k, m, ev)):
+            return "random-size-list-combined"
     if _all(viol, f20):
         return "in-empty-collection-lowered-to-true"
+    if _all(viol, f25):
+        return "aggregate-of-empty-list-dropped"
     return None
